@@ -611,6 +611,28 @@ fn main() {
         }
     }
     random_driver(&mut log, &mut rng, args.n, args.max_words, only_log2);
+    // --lehmer K W: K gcd cases above the length W (words) where the Lehmer loop switches to double-word guesses:
+    // a = g * u, b = g * v with a dense g of W.. words and random u, v of a few dozen words (their gcd is almost always 1, so the
+    // quotient sequence is that of (u, v) and the monitor's divisibility / Bezout checks stay cheap)
+    if let Some(i) = args.extra.iter().position(|a| a == "--lehmer") {
+        let k: u64 = args.extra[i + 1].parse().unwrap();
+        let w: usize = args.extra[i + 2].parse().unwrap();
+        for j in 0..k {
+            let gw = w + rng.below(6) as usize;
+            let pat = rng.next();
+            let g = IBig::from(ubig_from_bytes(&pattern_bytes(&mut rng, 8 * gw, pat)) + UBig::ONE);
+            // long enough that the guesses from the top double words never see the end of the quotient sequence:
+            // every iteration then fills the cofactors up to their limit, as for unrelated operands
+            let (uw, vw) = (24 + rng.below(8) as usize, 24 + rng.below(8) as usize);
+            let mut u = IBig::from(ubig_from_bytes(&pattern_bytes(&mut rng, 8 * uw, 0)) + UBig::ONE);
+            let v = IBig::from(ubig_from_bytes(&pattern_bytes(&mut rng, 8 * vw, 0)) + UBig::ONE);
+            if j % 3 == 2 {
+                u = -u;
+            }
+            let (a, b) = (&g * &u, &g * &v);
+            if j % 2 == 0 { run_gcd(&mut log, &a, &b, "lehmer") } else { run_gcd(&mut log, &b, &a, "lehmer") }
+        }
+    }
     let n = log.finish();
     eprintln!("c12[{}]: {} events", BUILD, n);
 }
